@@ -1044,6 +1044,18 @@ func (e *Engine) callMods(s *Sess, ct *Contract, callee *ssa.Function, com *ssa.
 		delete(m, "$dyn")
 		m["*"] = true
 	}
+	if ct != nil && len(ct.FrameFresh) > 0 {
+		n := map[string]bool{}
+		for k, v := range m {
+			n[k] = v
+		}
+		for _, k := range ct.FrameFresh {
+			if _, ok := n[k]; ok {
+				n[k] = false
+			}
+		}
+		m = n
+	}
 	return m
 }
 
